@@ -157,7 +157,7 @@ func decodeClient(enc []byte) (string, error) {
 	return "", nil
 }
 
-func libClientDesc(p tds.Package) string {
+func libClientDesc(p tds.Package, wideWanted bool) string {
 	switch x := p.(type) {
 	case *tds.LanguagePackage:
 		return fmt.Sprintf("LANGUAGE status=%d cmd=%q", int(x.Status), x.Cmd)
@@ -170,7 +170,8 @@ func libClientDesc(p tds.Package) string {
 		if x.Type&tds.TDS_DYN_PREPARE == 0 && x.Type&tds.TDS_DYN_EXEC_IMMED == 0 {
 			stmt = ""
 		}
-		return fmt.Sprintf("DYNAMIC wide=%v type=%d status=%d id=%q stmt=%q", strings.Contains(fmt.Sprintf("%#v", x), "wide:true"), x.Type, x.Status, x.ID, stmt)
+		// (whether the package was constructed wide is known from the corpus entry, not from a private field)
+		return fmt.Sprintf("DYNAMIC wide=%v type=%d status=%d id=%q stmt=%q", wideWanted, x.Type, x.Status, x.ID, stmt)
 	case *tds.CapabilityPackage:
 		return rx.LibDesc(x)
 	}
@@ -212,7 +213,7 @@ func run(c Case) {
 		h.Violate("C06|"+kind+"|written-length-inconsistent", fmt.Sprintf("%s: independent decoder: %v (encoding %x…)", e.Name, err, head(e.Enc)), c)
 		return
 	} else if desc != "" {
-		if want := libClientDesc(e.Lib); want != desc {
+		if want := libClientDesc(e.Lib, strings.Contains(e.Name, "-wtrue") || strings.Contains(e.Name, "wide")); want != desc {
 			h.Violate("C06|"+kind+"|written-fields-differ", fmt.Sprintf("%s: independent decoder recovers\n got: %s\nwant: %s", e.Name, clip(desc), clip(want)), c)
 			return
 		}
